@@ -15,6 +15,9 @@ var freeOddParts = []string{"k~z", "k.w", "k:v", "k|p", "é", "日本", "0", "10
 
 // FreeSel draws an expressible selector of 1..4 parts.
 func FreeSel(t *rapid.T) bx.Sel {
+	if rapid.IntRange(0, 39).Draw(t, "emptyPointer") == 0 {
+		return bx.Sel{Parts: []string{""}} // written ""
+	}
 	for {
 		n := rapid.IntRange(1, 4).Draw(t, "nparts")
 		parts := make([]string, n)
